@@ -100,7 +100,8 @@ class TokIO:
 
     def write(self, data):
         if isinstance(data, TokBytes):
-            self.put(("raw", data))
+            if len(data.toks):  # an empty byte string writes nothing
+                self.put(("raw", data))
             return data.size()
         if isinstance(data, (bytes, bytearray)):
             if len(data):
